@@ -262,5 +262,20 @@ pub fn cmd_walk(a: &[&str]) -> String {
         if d % 2 == 1 { n.replace(Em { marker: '*' }); }
     });
     let after = dump_tree(&root);
+    if a.len() > 1 {
+        // walk_mut with a callback that grows the tree: every original leaf whose id is a multiple of 3 gets a child;
+        // the traversal must go on into the children the node has after the callback
+        let mut i = 0; let mut counter = 0;
+        let mut root2 = build(b, &mut i, &mut counter);
+        let mut seq3: Vec<String> = vec![];
+        root2.walk_mut(|n, d| {
+            let name = n.cast::<Text>().map(|t| t.content.clone()).unwrap_or_default();
+            seq3.push(format!("{}/{}", name, d));
+            if n.children.is_empty() && !name.starts_with('n') && name.parse::<u32>().map(|x| x % 3 == 0).unwrap_or(false) {
+                n.children.push(Node::new(Text { content: format!("n{}", name) }));
+            }
+        });
+        return format!("ok w={} m={} t={} g={}", seq1.join(","), seq2.join(","), after, seq3.join(","));
+    }
     format!("ok w={} m={} t={}", seq1.join(","), seq2.join(","), after)
 }
